@@ -310,6 +310,17 @@ func (r *Run) mergeVal(g *Term, a, b Value, site Site) Value {
 			n[i] = r.mergeVal(g, x[i], y[i], site)
 		}
 		return n
+	case TupleV:
+		y := b.(TupleV)
+		n := make(TupleV, len(x))
+		for i := range x {
+			if x[i] == nil || y[i] == nil {
+				n[i] = x[i]
+				continue
+			}
+			n[i] = r.mergeVal(g, x[i], y[i], site)
+		}
+		return n
 	case *SliceV:
 		y := b.(*SliceV)
 		if x.len == y.len && x.arr != nil && y.arr != nil {
